@@ -288,16 +288,17 @@ Theorem C04_oer_open_type_skip_in_bounds : forall bs v n,
 Proof. exact oer_open_type_skip_in_bounds. Qed.
 Print Assumptions C04_oer_open_type_skip_in_bounds.
 
-(* xer_skip_unknown: the depth counter never leaves the range its assert demands *)
+(* xer_skip_unknown: the depth counter never leaves the range its assert demands; the answers are 0, 1 and -1
+   (answer 2 went with fix 01 of notes/fixes/I: the closing tag that ends the skip is the skipped element's own) *)
 Theorem C04_xer_skip_depth : forall (t : xct) (depth r d : Z), 0 < depth -> xer_skip t depth = (r, d) ->
-  (r = 0 -> 0 < d) /\ (r = 1 \/ r = 2 -> d = 0) /\ (r = -1 -> d = depth) /\
-  (r = 0 \/ r = 1 \/ r = 2 \/ r = -1).
+  (r = 0 -> 0 < d) /\ (r = 1 -> d = 0) /\ (r = -1 -> d = depth) /\
+  (r = 0 \/ r = 1 \/ r = -1).
 Proof. exact xer_skip_depth. Qed.
 Print Assumptions C04_xer_skip_depth.
 
 Theorem C04_xer_skip_run_safe : forall (evs : list xct) (depth : Z) (k : nat) (r d : Z) (n : nat),
   0 < depth -> xer_skip_run evs depth k = (r, d, n) ->
-  (k <= n <= k + length evs)%nat /\ (r = 0 -> 0 < d) /\ (r = 1 \/ r = 2 -> d = 0).
+  (k <= n <= k + length evs)%nat /\ (r = 0 -> 0 < d) /\ (r = 1 -> d = 0) /\ (r = 0 \/ r = 1 \/ r = -1).
 Proof. exact xer_skip_run_safe. Qed.
 Print Assumptions C04_xer_skip_run_safe.
 
